@@ -45,7 +45,7 @@ type Case struct {
 	Sops  [][]any `json:"sops"`
 	// kind "conc" (conc.go): threads of ring operations on universe nodes, a schedule of thread ids
 	Threads [][][]any `json:"threads"`
-	Sched   []int     `json:"sched"`
+	Sched   []any     `json:"sched"` // a thread id, or ["g", probe, thread]: a lookup overlapping the thread's step
 }
 
 type Out struct {
@@ -61,6 +61,8 @@ type Out struct {
 	Touch [][]int  `json:"touch,omitempty"`
 	Res   []string `json:"res,omitempty"`
 	Snap  [][]int  `json:"snap,omitempty"`
+	// conc: per schedule step [] or [probe, answer, overlapped, step ran while the lookup was parked]
+	Gobs [][]int `json:"gobs,omitempty"`
 }
 
 type strg struct{ s string }
